@@ -752,12 +752,16 @@ func checkParam(c *vlib.Case, api string, d *disc, desc string, bm map[C3]C2, po
 	if polyCls < 0 {
 		sign = -1
 	}
+	worstUndecided := 0.0
 	for _, ti := range suspects {
 		t := d.s.tris[ti]
 		a, b, cc := pos(nz(t[0])), pos(nz(t[1])), pos(nz(t[2]))
 		o := sign * ref.Orient2DValue(a, b, cc)
 		per := a.Dist(b) + b.Dist(cc) + cc.Dist(a)
 		margin := 2*delta*per + 4*delta*delta
+		if o <= margin && o > worstUndecided {
+			worstUndecided = o
+		}
 		if o > margin {
 			c.Violation(api+"/flip", fmt.Sprintf("triangle %d is flipped or degenerate in the library's result (orientation %d) but has signed double area %g in the certified reference solution; tolerance-induced change is at most %g",
 				ti, ref.Orient2D(uv[nz(t[0])], uv[nz(t[1])], uv[nz(t[2])]), o, margin),
@@ -772,7 +776,12 @@ func checkParam(c *vlib.Case, api string, d *disc, desc string, bm map[C3]C2, po
 			return res
 		}
 	}
-	c.Undecided("flip-within-solver-tolerance")
+	if strict {
+		c.Undecided("flip-within-solver-tolerance(strictly-convex-boundary)")
+	} else {
+		c.Undecided("flip-within-solver-tolerance(weakly-convex-boundary)")
+	}
+	c.Max("floater.largest_reference_area_of_an_undecided_flip", worstUndecided)
 	return res
 }
 
